@@ -235,6 +235,22 @@ TIterCap(ev) ==
   /\ UNCHANGED <<objs, tabs, iters, imgs, digs, memo>>
 
 -----------------------------------------------------------------------------
+\* the first fields of every image: type tag, number of elements, maxLength (the block kind: tag, maxLength,
+\* cut size, number of strings) - little endian; v < 2^31
+LE(v, k) == [i \in 1..k |-> IF i = 1 THEN v % 256 ELSE IF i = 2 THEN (v \div 256) % 256 ELSE IF i = 3 THEN (v \div 65536) % 256
+                            ELSE IF i = 4 THEN v \div 16777216 ELSE 0]
+HeaderC(o, hd) ==
+  IF o.kind = "BLOCKS" THEN
+    (IF Len(hd) >= 24 /\ SubSeq(hd, 1, 4) = LE(Tag(o.kind), 4) /\ SubSeq(hd, 17, 24) = LE(N(o), 8) THEN <<>>
+     ELSE <<C("C06", "save: image does not start with the kind's type tag / number of strings")>>)
+    \o (IF Len(hd) >= 8 /\ (\E ml \in MaxLen(o.S)..(MaxLen(o.S) + 1) : SubSeq(hd, 5, 8) = LE(ml, 4)) THEN <<>>
+        ELSE <<C("C15", "save: the image's maxLength field is not in [longest, longest+1]")>>)
+  ELSE
+    (IF Len(hd) >= 12 /\ SubSeq(hd, 1, 4) = LE(Tag(o.kind), 4) /\ SubSeq(hd, 5, 12) = LE(N(o), 8) THEN <<>>
+     ELSE <<C("C06", "save: image does not start with the kind's type tag / number of elements")>>)
+    \o (IF Len(hd) >= 16 /\ (\E ml \in MaxLen(o.S)..(MaxLen(o.S) + 1) : SubSeq(hd, 13, 16) = LE(ml, 4)) THEN <<>>
+        ELSE <<C("C15", "save: the image's maxLength field is not in [longest, longest+1]")>>)
+
 TSave(ev) ==
   LET o == objs[ev.h]
       key == <<o.kind, ParKey(o.kind, o.par), o.S>>
@@ -246,7 +262,7 @@ TSave(ev) ==
   IN  /\ digs' = IF built /\ key \notin DOMAIN digs THEN Upd(digs, key, ev.dg) ELSE digs
       /\ imgs' = Upd(imgs, ev.img, [kind |-> o.kind, par |-> o.par, S |-> o.S, tid |-> o.tid, bytes |-> ev.bytes, dg |-> ev.dg,
                                      differs |-> o.differs \/ srcdiff])
-      /\ Report(ev, Cs, o.kind, o.origin) /\ UNCHANGED <<objs, tabs, iters, memo>>
+      /\ Report(ev, Cs \o (IF "hd" \in DOMAIN ev THEN HeaderC(o, ev.hd) ELSE <<>>), o.kind, o.origin) /\ UNCHANGED <<objs, tabs, iters, memo>>
 
 \* the image of the stream that starts at byte offset `at`
 RECURSIVE ImgAt(_, _, _)
